@@ -370,6 +370,79 @@ META = {
         change='mapping targets are re-keyed by str_context(), which ignores SupNode.ref',
         needs='supplementary option nodes with the same name and different ref',
         strengthened='supplementary options may share their name and differ in ref'),
+    # ---- fourth round ----
+    'C01-d': dict(breaks='C01', file='adsg_core/optimization/hierarchy/complete.py (_find_correct_opt_idx)',
+                  change='same aliasing of the cached combination set as C03-b / C05-b (found independently a third time)',
+                  needs='see C03-b', strengthened=None),
+    'C03-d': dict(breaks='C03', file='adsg_core/graph/adsg.py (DSG.__init__)',
+                  change='the dictionary of stored design-variable values is no longer copied (explicit None check)',
+                  needs='two or more decodes on one processor and an earlier instance (or the base graph) inspected '
+                        'after a later decode', strengthened=None),
+    'C04-d': dict(breaks='C04', file='adsg_core/optimization/graph_processor.py (_get_des_vars)',
+                  change='same rebinding of the infeasible-existence mask as C01-b (found independently)',
+                  needs='two connection choices, infeasible pattern on a non-last one: extra rows that cannot be decoded',
+                  strengthened=None),
+    'C05-d': dict(breaks='C05', file='adsg_core/graph/adsg.py (DSG.__init__) + graph_processor.py (get_graph)',
+                  change='two cooperating sites: value dictionaries are not copied, and the final instance copy is made '
+                         'AFTER the design-variable values were stored on the cached graph',
+                  needs='design-variable nodes, a reused cached graph, two decodes and the earlier instance inspected '
+                        'again; every decode equals a fresh processor\'s at return time',
+                  strengthened='C05 keeps every returned instance with a snapshot of what it held when it was handed out '
+                               'and re-checks all of them after every later decode / mutation (C08 caught it from the start)'),
+    'C07-d': dict(breaks='C07', file='adsg_core/optimization/assign_enc/enumerating/recursive.py (_encode_matrix)',
+                  change='the stored last design vector no longer carries the -1 markers that the overflow path returns',
+                  needs='EnumRecursiveEncoder (last selection stage or only candidate), a matrix count whose last index '
+                        'has a zero digit, and a raw vector beyond the last index',
+                  strengthened='KF-EAGER-ACT used to swallow it (the enumerating encoders are lazy encoders): the matcher '
+                               'now names the eager encoder classes; the forced single-encoder mode provides the encoder'),
+    'C09-d': dict(breaks='C09', file='adsg_core/optimization/assign_enc/matrix.py (NodeExistence.get_effective_settings)',
+                  change='the effective settings get the raw max_conn_parallel (None) instead of the limit computed '
+                         'before open-ended conversion',
+                  needs='consecutive degree ranges reaching 3 or more on repeatable pairs (typically in reduced existence '
+                        'patterns): matrices with a cell >= 3 vanish from enumeration, validation and count alike',
+                  strengthened='C09 class with degree ranges 0..3, 1..3, 0..4 and existence patterns'),
+    'C10-d': dict(breaks='C10', file='adsg_core/optimization/assign_enc/lazy/encodings/conn_idx.py',
+                  change='the by-target branch reads the SOURCE override map for targets',
+                  needs='a by-target lazy connection-index encoder and an existence pattern with a source-side override',
+                  strengthened=None),
+    'C11-d': dict(breaks='C11', file='adsg_core/optimization/assign_enc/matrix.py (MatrixGenSettings.get_cache_key)',
+                  change='the exclusion part of the cache key formats the source index twice (target index lost)',
+                  needs='two design spaces with identical connectors whose exclusion edges leave the same source for '
+                        'different targets, processed through the same cache directory',
+                  strengthened='C11 checks a sibling of every case with the exclusion edge moved to another target right '
+                               'after it; C12\'s near-pairs include same-source / other-target exclusions'),
+    'C12-d': dict(breaks='C12', file='adsg_core/optimization/assign_enc/selector.py (initialize_numba)',
+                  change='the warm-up flag that excludes pattern encoders is reset on the class, not on the instance',
+                  needs='the FIRST selector of a process (the one that performs the numba warm-up) selecting for '
+                        'settings that a pattern encoder matches: its result (cached on disk) differs from what every '
+                        'later selector computes',
+                  strengthened='C12 first-selection-of-process probe (first selection through the cache, then two fresh '
+                               'selections; judged only when those agree on the pattern stage) and same-process repeats'),
+    'C13-d': dict(breaks='C13', file='adsg_core/optimization/hierarchy/fast.py (_get_selection_choice_is_forced)',
+                  change='same dropped sort as C14-b (found independently)', needs='see C14-b',
+                  strengthened='the state probe linked_forced_is_first (the first choice of a LINKED group is never the '
+                               'forced one) now decides whether KF-CON-LINKED-FAST may match'),
+    'C15-d': dict(breaks='C15', file='adsg_core/optimization/graph_processor.py (_get_all_des_var_values)',
+                  change='fixed values are spliced in with list.insert in the order in which they were fixed',
+                  needs='two variables fixed, the higher index first, and a free variable behind it',
+                  strengthened='C15 law for two simultaneously fixed variables in both fixing orders'),
+    'C16-d': dict(breaks='C16', file='adsg_core/graph/adsg.py (DSG.__init__)',
+                  change='the design-variable value dictionary is not copied (`x or {}`)',
+                  needs='a base design space graph that already stores a value before the processor is built, then two '
+                        'decodes and the earlier instance / the base graph inspected again',
+                  strengthened='C16 presets a nominal value on the base graph in half of the cases and re-checks earlier '
+                               'instances and the base graph after every decode'),
+    'C17-d': dict(breaks='C17', file='adsg_core/graph/adsg.py + adsg_basic.py (get_confirmed_graph cached per object)',
+                  change='the confirmed graph is cached on the DSG object and only reset by add_selection_choice',
+                  needs='a graph that was classified once and then extended in place (add_edge with a new metric) and '
+                        'initialised again',
+                  strengthened='C17 incremental-history pass (classify, extend the same object, classify again vs a '
+                               'graph built in one go)'),
+    'C20-d': dict(breaks='C20', file='adsg_core/graph/sup/dsg.py (SupSelChoiceOptionMapping.resolve memo)',
+                  change='the resolved option is memoised per set of existing source node names',
+                  needs='option nodes of the mapped source choice that exist in every architecture through another '
+                        'parent, and two sibling architectures resolved through the same mapping object',
+                  strengthened=None),
 }
 
 
